@@ -77,7 +77,21 @@ func Reduce(e1 CValueEnclosure, e2 CValueEnclosure, fun AggregateFunctions) (CVa
 		}
 	}
 
-	// TODO: what if one is int64 and the other is uint64? Is there any way to avoid annoying conversions?
+	// From here on both values must be of one type. A column of mixed type can
+	// put an int64 next to a uint64 (reduced as int64 when the value fits) or a
+	// boolean next to a number (not reducible).
+	if e1.Dtype != e2.Dtype {
+		e1Uint, e1IsUint := e1.CVal.(uint64)
+		e2Uint, e2IsUint := e2.CVal.(uint64)
+		switch {
+		case e1.Dtype == SS_DT_SIGNED_NUM && e2.Dtype == SS_DT_UNSIGNED_NUM && e2IsUint && e2Uint <= math.MaxInt64:
+			e2 = CValueEnclosure{Dtype: SS_DT_SIGNED_NUM, CVal: int64(e2Uint)}
+		case e1.Dtype == SS_DT_UNSIGNED_NUM && e2.Dtype == SS_DT_SIGNED_NUM && e1IsUint && e1Uint <= math.MaxInt64:
+			e1 = CValueEnclosure{Dtype: SS_DT_SIGNED_NUM, CVal: int64(e1Uint)}
+		default:
+			return e1, fmt.Errorf("Reduce: cannot reduce Dtype %v with Dtype %v", e1.Dtype, e2.Dtype)
+		}
+	}
 
 	switch e1.Dtype {
 	case SS_DT_UNSIGNED_NUM:
